@@ -137,6 +137,25 @@ fn verify_detached_everywhere(rec: &mut Rec, what: &str, sig: &Signature, kind: 
     };
 }
 
+
+/// subpacket configuration of a builder signature: rPGP's default, or a caller-provided list that
+/// carries both issuer hints, only the fingerprint, only the key id, or none (the hints are optional)
+fn signer_subpackets(key: &impl pgp::types::KeyDetails, hint: usize) -> pgp::composed::SubpacketConfig {
+    use pgp::composed::SubpacketConfig;
+    if hint == 0 {
+        return SubpacketConfig::Default;
+    }
+    let mut hashed = vec![Subpacket::regular(SubpacketData::SignatureCreationTime(Timestamp::from_secs(1_700_000_555))).expect("subpacket")];
+    let mut unhashed = vec![];
+    if hint == 1 || hint == 2 {
+        hashed.push(Subpacket::regular(SubpacketData::IssuerFingerprint(key.fingerprint())).expect("subpacket"));
+    }
+    if (hint == 1 || hint == 3) && key.version() != KeyVersion::V6 {
+        unhashed.push(Subpacket::regular(SubpacketData::IssuerKeyId(key.legacy_key_id())).expect("subpacket"));
+    }
+    SubpacketConfig::UserDefined { hashed, unhashed }
+}
+
 fn data_case(t: &mut Tape, rec: &mut Rec, payload: Vec<u8>, kinds: &[Kind]) -> CaseResult {
     let kind = *t.pick(kinds);
     let z = zoo::get(kind);
@@ -197,6 +216,11 @@ fn data_case(t: &mut Tape, rec: &mut Rec, payload: Vec<u8>, kinds: &[Kind]) -> C
     rec.label(format!("builder-signers={nsign}"));
     let from_reader = t.bool();
     let sched = Sched::draw(t, payload.len(), &[512, 8192]);
+    // 0 = default subpackets, 1 = explicit with both issuer hints, 2 = fingerprint only, 3 = key id only (v4), 4 = no hint
+    let hints: Vec<usize> = signers.iter().map(|_| if t.chance(150) { 0 } else { t.range(1, 4) }).collect();
+    if hints.iter().any(|h| *h >= 2) {
+        rec.label("builder-signer-without-full-issuer-hints");
+    }
     let built = {
         if from_reader {
             let mut b = MessageBuilder::from_reader("", SchedRead::new(payload.clone(), sched));
@@ -204,7 +228,8 @@ fn data_case(t: &mut Tape, rec: &mut Rec, payload: Vec<u8>, kinds: &[Kind]) -> C
                 b.sign_text();
             }
             for (i, k) in signers.iter().enumerate() {
-                b.sign(&zoo::get(*k).secret.primary_key, Password::empty(), if i == 0 { hash } else { *k.hashes().last().unwrap() });
+                let sk = &zoo::get(*k).secret.primary_key;
+                b.sign_with_subpackets(sk, Password::empty(), if i == 0 { hash } else { *k.hashes().last().unwrap() }, signer_subpackets(sk, hints[i]));
             }
             b.to_vec(&mut rng)
         } else {
@@ -213,7 +238,8 @@ fn data_case(t: &mut Tape, rec: &mut Rec, payload: Vec<u8>, kinds: &[Kind]) -> C
                 b.sign_text();
             }
             for (i, k) in signers.iter().enumerate() {
-                b.sign(&zoo::get(*k).secret.primary_key, Password::empty(), if i == 0 { hash } else { *k.hashes().last().unwrap() });
+                let sk = &zoo::get(*k).secret.primary_key;
+                b.sign_with_subpackets(sk, Password::empty(), if i == 0 { hash } else { *k.hashes().last().unwrap() }, signer_subpackets(sk, hints[i]));
             }
             b.to_vec(&mut rng)
         }
